@@ -11,7 +11,6 @@ import (
 	"fmt"
 	"sync"
 
-	"github.com/blinklabs-io/gouroboros/cbor"
 	"github.com/blinklabs-io/gouroboros/ledger"
 	"github.com/blinklabs-io/gouroboros/ledger/byron"
 	"github.com/blinklabs-io/gouroboros/ledger/common"
@@ -91,7 +90,7 @@ func errType(e error) string {
 func families2() []family {
 	cred := func() *vh.Item { return vh.A(vh.U(0), h(28, 1)) }
 	var fs []family
-	add := func(name, table string, spec map[uint64]string, shapes []shape, wrap func(*vh.Item) *vh.Item, firstOnly bool, dec func(b []byte) (string, error)) {
+	add := func(name, table string, spec map[uint64]string, shapes []shape, wrap func(*vh.Item) *vh.Item, firstOnly bool, dec func(b []byte, prev ...[]byte) (string, error)) {
 		if spec == nil {
 			spec = tableByName(table)
 		}
@@ -109,9 +108,9 @@ func families2() []family {
 		fs = append(fs, family{name: name, spec: spec, shapes: shapes, decode: dec, wrap: wrap, firstAccepted: firstOnly, table: table})
 	}
 	add("with-origin-slot", "", map[uint64]string{0: "origin", 1: "slot"}, []shape{{0, nil}, {1, []*vh.Item{vh.U(42)}}}, nil, false,
-		func(b []byte) (string, error) {
+		func(b []byte, prev ...[]byte) (string, error) {
 			var w lsq.WithOriginSlot
-			if _, err := cbor.Decode(b, &w); err != nil {
+			if err := decodeInto(&w, b, prev); err != nil {
 				return "", err
 			}
 			if w.HasSlot {
@@ -122,34 +121,34 @@ func families2() []family {
 	add("relay-access-point", "protocol/localstatequery.RelayAccessPoint.UnmarshalCBOR", nil,
 		[]shape{{0, []*vh.Item{vh.U(0x7f000001), vh.U(3001)}}, {1, []*vh.Item{vh.A(vh.U(1), vh.U(2), vh.U(3), vh.U(4)), vh.U(3001)}},
 			{2, []*vh.Item{vh.B([]byte("example.com")), vh.U(3001)}}, {3, []*vh.Item{vh.B([]byte("_srv.example.com"))}}}, nil, false,
-		func(b []byte) (string, error) {
+		func(b []byte, prev ...[]byte) (string, error) {
 			var r lsq.RelayAccessPoint
-			if _, err := cbor.Decode(b, &r); err != nil {
+			if err := decodeInto(&r, b, prev); err != nil {
 				return "", err
 			}
 			return map[lsq.RelayKind]string{0: "RelayKindIPv4", 1: "RelayKindIPv6", 2: "RelayKindDomain", 3: "RelayKindSRV"}[r.Kind], nil
 		})
 	add("hot-cred-auth-status", "", map[uint64]string{0: "0", 1: "1", 2: "2"},
 		[]shape{{0, nil}, {1, []*vh.Item{cred()}}, {2, []*vh.Item{vh.Null()}}}, nil, false,
-		func(b []byte) (string, error) {
+		func(b []byte, prev ...[]byte) (string, error) {
 			var v lsq.HotCredAuthStatusValue
-			if _, err := cbor.Decode(b, &v); err != nil {
+			if err := decodeInto(&v, b, prev); err != nil {
 				return "", err
 			}
 			return fmt.Sprint(int(v.Status)), nil
 		})
 	add("lsq-query", "protocol/localstatequery.QueryWrapper.UnmarshalCBOR#0", nil,
 		[]shape{{1, nil}, {2, nil}, {3, nil}, {0, []*vh.Item{vh.A(vh.U(2), vh.A(vh.U(1)))}}}, nil, false,
-		func(b []byte) (string, error) {
+		func(b []byte, prev ...[]byte) (string, error) {
 			var q lsq.QueryWrapper
-			if _, err := cbor.Decode(b, &q); err != nil {
+			if err := decodeInto(&q, b, prev); err != nil {
 				return "", err
 			}
 			return trimType(q.Query), nil
 		})
-	blockQ := func(b []byte) (*lsq.BlockQuery, error) {
+	blockQ := func(b []byte, prev [][]byte) (*lsq.BlockQuery, error) {
 		var q lsq.QueryWrapper
-		if _, err := cbor.Decode(b, &q); err != nil {
+		if err := decodeInto(&q, b, prev); err != nil {
 			return nil, err
 		}
 		bq, ok := q.Query.(*lsq.BlockQuery)
@@ -161,8 +160,8 @@ func families2() []family {
 	add("lsq-block-query", "protocol/localstatequery.BlockQuery.UnmarshalCBOR#0", nil,
 		[]shape{{0, []*vh.Item{vh.A(vh.U(5), vh.A(vh.U(1)))}}, {2, []*vh.Item{vh.A(vh.U(1))}}},
 		func(in *vh.Item) *vh.Item { return vh.A(vh.U(0), in) }, false,
-		func(b []byte) (string, error) {
-			bq, err := blockQ(b)
+		func(b []byte, prev ...[]byte) (string, error) {
+			bq, err := blockQ(b, prev)
 			if err != nil {
 				return "", err
 			}
@@ -170,8 +169,8 @@ func families2() []family {
 		})
 	add("lsq-shelley-query", "protocol/localstatequery.shelleyQueryTypes#0", nil, nil,
 		func(in *vh.Item) *vh.Item { return vh.A(vh.U(0), vh.A(vh.U(0), vh.A(vh.U(5), in))) }, true,
-		func(b []byte) (string, error) {
-			bq, err := blockQ(b)
+		func(b []byte, prev ...[]byte) (string, error) {
+			bq, err := blockQ(b, prev)
 			if err != nil {
 				return "", err
 			}
@@ -183,8 +182,8 @@ func families2() []family {
 		})
 	add("lsq-hardfork-query", "protocol/localstatequery.HardForkQuery.UnmarshalCBOR#0", nil, []shape{{0, nil}, {1, nil}},
 		func(in *vh.Item) *vh.Item { return vh.A(vh.U(0), vh.A(vh.U(2), in)) }, false,
-		func(b []byte) (string, error) {
-			bq, err := blockQ(b)
+		func(b []byte, prev ...[]byte) (string, error) {
+			bq, err := blockQ(b, prev)
 			if err != nil {
 				return "", err
 			}
@@ -197,18 +196,18 @@ func families2() []family {
 	add("dijkstra-gov-action", "ledger/dijkstra.DijkstraGovAction.UnmarshalCBOR", nil,
 		[]shape{{6, nil}, {3, []*vh.Item{vh.Null()}}, {1, []*vh.Item{vh.Null(), vh.A(vh.U(10), vh.U(0))}},
 			{5, []*vh.Item{vh.Null(), vh.A(vh.A(vh.T("https://x"), h(32, 1)), vh.Null())}}}, nil, false,
-		func(b []byte) (string, error) {
+		func(b []byte, prev ...[]byte) (string, error) {
 			var g dijkstra.DijkstraGovAction
-			if _, err := cbor.Decode(b, &g); err != nil {
+			if err := decodeInto(&g, b, prev); err != nil {
 				return "", err
 			}
 			return trimType(g.Action), nil
 		})
 	add("pool-relay", "ledger/common.PoolRelay.UnmarshalCBOR", nil,
 		[]shape{{0, []*vh.Item{vh.U(3001), vh.B([]byte{127, 0, 0, 1}), vh.Null()}}, {1, []*vh.Item{vh.U(3001), vh.T("relay.example")}}, {2, []*vh.Item{vh.T("relay.example")}}}, nil, false,
-		func(b []byte) (string, error) {
+		func(b []byte, prev ...[]byte) (string, error) {
 			var p common.PoolRelay
-			if _, err := cbor.Decode(b, &p); err != nil {
+			if err := decodeInto(&p, b, prev); err != nil {
 				return "", err
 			}
 			v := map[int]string{0: "PoolRelayTypeSingleHostAddress", 1: "PoolRelayTypeSingleHostName", 2: "PoolRelayTypeMultiHostName"}[p.Type]
@@ -220,9 +219,9 @@ func families2() []family {
 		})
 	add("byron-tx-input", "ledger/byron.ByronTransactionInput.UnmarshalCBOR", nil,
 		[]shape{{0, []*vh.Item{vh.TagOf(24, vh.B(vh.A(h(32, 1), vh.U(7)).Enc()))}}}, nil, false,
-		func(b []byte) (string, error) {
+		func(b []byte, prev ...[]byte) (string, error) {
 			var i byron.ByronTransactionInput
-			if _, err := cbor.Decode(b, &i); err != nil {
+			if err := decodeInto(&i, b, prev); err != nil {
 				return "", err
 			}
 			if i.OutputIndex != 7 {
@@ -232,33 +231,33 @@ func families2() []family {
 		})
 	// ---- ledger/error.go: failure reasons ----
 	add("shelley-utxow-failure", "ledger.ShelleyUtxowFailure.UnmarshalCBOR", nil, nil, nil, true,
-		func(b []byte) (string, error) {
+		func(b []byte, prev ...[]byte) (string, error) {
 			var e ledger.ShelleyUtxowFailure
-			if _, err := cbor.Decode(b, &e); err != nil {
+			if err := decodeInto(&e, b, prev); err != nil {
 				return "", err
 			}
 			return errType(e.Err), nil
 		})
 	add("alonzo-utxow-failure", "ledger.AlonzoUtxowFailure.UnmarshalCBOR", nil, nil, nil, true,
-		func(b []byte) (string, error) {
+		func(b []byte, prev ...[]byte) (string, error) {
 			var e ledger.AlonzoUtxowFailure
-			if _, err := cbor.Decode(b, &e); err != nil {
+			if err := decodeInto(&e, b, prev); err != nil {
 				return "", err
 			}
 			return errType(e.Err), nil
 		})
 	add("babbage-utxo-failure", "ledger.BabbageUtxoFailure.UnmarshalCBOR", nil, nil, nil, true,
-		func(b []byte) (string, error) {
+		func(b []byte, prev ...[]byte) (string, error) {
 			var e ledger.BabbageUtxoFailure
-			if _, err := cbor.Decode(b, &e); err != nil {
+			if err := decodeInto(&e, b, prev); err != nil {
 				return "", err
 			}
 			return errType(e.Err), nil
 		})
 	add("conway-utxow-failure", "ledger.ConwayUtxowFailure.UnmarshalCBOR", nil, nil, nil, true,
-		func(b []byte) (string, error) {
+		func(b []byte, prev ...[]byte) (string, error) {
 			var e ledger.ConwayUtxowFailure
-			if _, err := cbor.Decode(b, &e); err != nil {
+			if err := decodeInto(&e, b, prev); err != nil {
 				return "", err
 			}
 			return errType(e.Err), nil
@@ -288,9 +287,9 @@ func families2() []family {
 		}
 		add("utxo-failure-"+era.name, "", spec, autoShapes(ids(spec)),
 			func(in *vh.Item) *vh.Item { return vh.A(vh.U(uint64(era.id)), in) }, true,
-			func(b []byte) (string, error) {
+			func(b []byte, prev ...[]byte) (string, error) {
 				var e ledger.UtxoFailure
-				if _, err := cbor.Decode(b, &e); err != nil {
+				if err := decodeInto(&e, b, prev); err != nil {
 					return "", err
 				}
 				return errType(e.Err), nil
@@ -303,9 +302,9 @@ func families2() []family {
 			func(in *vh.Item) *vh.Item {
 				return vh.A(vh.A(vh.U(uint64(era.id)), vh.A(vh.A(vh.U(0), in))))
 			}, true,
-			func(b []byte) (string, error) {
+			func(b []byte, prev ...[]byte) (string, error) {
 				var e ledger.ShelleyTxValidationError
-				if _, err := cbor.Decode(b, &e); err != nil {
+				if err := decodeInto(&e, b, prev); err != nil {
 					return "", err
 				}
 				if len(e.Err.Failures) != 1 {
@@ -330,9 +329,9 @@ func families2() []family {
 			return out
 		}(),
 		func(in *vh.Item) *vh.Item { return vh.A(vh.A(vh.U(uint64(ledger.EraIdConway)), vh.A(in))) }, true,
-		func(b []byte) (string, error) {
+		func(b []byte, prev ...[]byte) (string, error) {
 			var e ledger.ShelleyTxValidationError
-			if _, err := cbor.Decode(b, &e); err != nil {
+			if err := decodeInto(&e, b, prev); err != nil {
 				return "", err
 			}
 			if len(e.Err.Failures) != 1 {
